@@ -222,6 +222,20 @@ func init() {
 		call(core.Atoi(args[0]), core.Unhex(args[1]))
 		return "ok"
 	}
+	// raw families: args = via, blob, hints of the model; value-level comparison with the model on
+	// malformed input.  DecodeType(jsonb)'s fallback (the input itself as a string, invalid UTF-8
+	// replaced by '.') is rendered as the raw input, which is how the model renders it.
+	raw := func(args []string) string {
+		via := core.Atoi(args[0])
+		blob := core.Unhex(args[1])
+		v := call(via, blob)
+		if str, ok := v.(string); ok && via == 3 && str == strings.ToValidUTF8(string(blob), ".") {
+			v = string(blob)
+		}
+		return showJ(v, args[2:]...)
+	}
+	core.Register("numeric_raw", raw)
+	core.Register("jsonb_raw", raw)
 	core.Register("numeric_malformed", robust)
 	core.Register("jsonb_malformed", robust)
 	core.Register("jsonb_alias", robust)
